@@ -45,12 +45,18 @@ properties! {
     "C04" => c04,
     "C05" => c05,
     "C06" => c06,
+    "C07" => c07,
+    "C08" => c08,
     "C11" => c11,
+    "C13" => c13,
+    "C16" => c16,
+    "C18" => c18,
 }
 
 pub fn probes(ctx: &Ctx, id: &str) -> Vec<Probe> {
     match id {
         "C03" => c03::probes(ctx),
+        "C18" => c18::probes(ctx),
         _ => vec![],
     }
 }
